@@ -317,6 +317,15 @@ func checkC24(r *Run) {
 		req("an existing record must be pending", "when: "+conn+" != nil => "+conn+`.ConnectionDetails.State == "pending"`))
 	r.RequireAtStore("C24-R2", "daemon.Connections.connected", "$0.ipCounts[*] := *", 1, req("per-IP count incremented only for a new record", conn+" == nil"))
 	r.RequireStore("C24-R2", "daemon.Connections.connected", "gnet id indexed to the address", "$0.gnetIDs[$2] := $1")
+	// a failed connection attempt removes at most a pending record: the failure handler passes connection id 0,
+	// which only a record that never connected carries
+	if fn := r.fn("C24-R2", "daemon.Daemon.onConnectFailure"); fn != nil {
+		sites := r.CallSites(fn, "daemon.Connections.remove")
+		r.Check("C24-R2", "daemon.Daemon.onConnectFailure removes the record of the failed attempt", r.P.Pos(fn.Pos()), len(sites) == 1, fmt.Sprint(len(sites)))
+		for _, cs := range sites {
+			r.Check("C24-R2", "daemon.Daemon.onConnectFailure: the failure event removes only a record with connection id 0 (pending)", r.P.Pos(cs.Pos()), r.argTerm(cs, 2) == "0" && r.argTerm(cs, 1) == "$1.Addr", "remove("+r.argTerm(cs, 1)+", "+r.argTerm(cs, 2)+")")
+		}
+	}
 	// a removal names the connection it means: the record is dropped only when its connection id is the caller's
 	// (0 for a connection that never got one), whatever the event that triggers it
 	r.RequireOnSuccess("C24-R2", "daemon.Connections.remove",
